@@ -258,6 +258,12 @@ func checkReset(w *core.World, st *core.Step, prop string) {
 				}
 			}
 		}
+		// a directory the command (re-)created must be one its files can be reached in: the owner may read, write and search it
+		for d, m := range st.Post.Modes {
+			if _, before := st.Pre.Modes[d]; !before && st.Post.Dirs[d] && strings.HasPrefix(d, "w/") && !strings.HasPrefix(d, "w/.goit") {
+				w.Fail("C08.hard-files", "directory-not-usable", wtPerturbation(st.Pre), "after %s the directory %q has the mode %o: nobody but the superuser can reach the files of the snapshot in it", st.String(), strings.TrimPrefix(d, "w/"), m)
+			}
+		}
 		c.Oracle("C08.hard-never-tracked")
 		et := everTracked(w)
 		wt0, wt1 := st.Pre.WT(), st.Post.WT()
